@@ -70,7 +70,7 @@ NONLINEAR = {
 }
 
 
-def data_points(rng, truth, kind, npts, nsamp=40):
+def data_points(rng, truth, kind, npts, nsamp=40, vary_n=False):
     """observables y_i with central value near truth_i.
     kind: 'independent' (own ensemble per point), 'shared' (one ensemble, correlated through common noise), 'mixed' (two ensembles)"""
     ys = []
@@ -83,10 +83,17 @@ def data_points(rng, truth, kind, npts, nsamp=40):
     idl = gen.make_idl(rng, str(rng.choice(['contig', 'strided', 'irregular'])), nsamp)
     common = rng.normal(size=len(idl))
     tau = float(rng.choice([0, 1.5]))
+    short = int(rng.integers(1, max(2, len(truth))))
     for i, t in enumerate(truth):
         rel = float(rng.uniform(0.01, 0.03))
         noise = 0.6 * common + gen.chain_data(rng, len(idl), mean=0.0, sigma=1.0, tau=tau)
-        o = pe.Obs([t * (1 + rel * rng.normal()) + rel * (abs(t) + 0.1) * noise], ['E|r1'], idl=[idl])
+        full = t * (1 + rel * rng.normal()) + rel * (abs(t) + 0.1) * noise
+        if vary_n and i >= 1 and (i == short or rng.random() < 0.3):
+            # a point known on fewer configurations than the others (never the first one of the list)
+            keep = int(len(idl) * (0.6 if i == short else float(rng.uniform(0.7, 0.95))))
+            o = pe.Obs([full[:keep]], ['E|r1'], idl=[list(idl)[:keep]])
+        else:
+            o = pe.Obs([full], ['E|r1'], idl=[idl])
         if kind == 'mixed' and i % 2:
             idl2 = gen.make_idl(rng, 'contig', 25)
             o = o + pe.Obs([0.5 * rel * (abs(t) + 0.1) * rng.normal(size=len(idl2))], ['F'], idl=[idl2])
